@@ -15,6 +15,10 @@ claimed = {
    text="Decides from source: the dialer registry map is only touched under its mutex (must-hold lockset over every function of package transport, covers all schedules of concurrent register/unregister/dial); no index/slice/panic/unchecked assertion/division reachable from ParseURL, DialURL, DialURLContext can fail (compiler prove pass + fact engine, covers all raw strings); ErrMissingDialer is returned exactly on the not-found edge of the lookup keyed by the scheme and otherwise the looked-up dialer is called; ParseURL's success return is dominated by the short-target and digipeaters-unsupported (ardop, telnet) guards; target/digis derive from the upper-cased path. Does not decide component fidelity (equality of strings) for all tuples.",
    technique="must-hold lockset dataflow on SSA; crash-site inventory discharged by compiler BCE proofs and a difference-bound fact engine; dominance/guard analysis of returns",
    ref="DESIGN.md section 4, C19"),
+ "C20": dict(
+   text="Decides from source: the constant formats reaching Sprintf in decToMinDec have the DD-MM.MMMMH / DDD-MM.MMMMH shape on the latitude resp. longitude edge; the hemisphere letter, decided by enumerating the finite set of cases the function can distinguish (coordinate kind x sign of the value, which is only inspected through comparisons with zero) and following the branch structure to the constant reaching %c; NewCourse formats %03d of a value proven within [0,359] and the stringer appends M/T on the right edge; optional pointer fields are dereferenced only under their non-nil test; body, subject and recipient are set non-empty on every path. Does not decide numeric accuracy nor minutes < 60 (floating-point rounding: 10.9999999 prints 10-60.0000N, a value property).",
+   technique="fmt verb parsing of constant formats per phi edge; abstract case enumeration over branch conditions; interval proof on SSA; dominance of non-nil tests",
+   ref="DESIGN.md section 4, C20"),
 }
 
 not_applicable = {
